@@ -3,8 +3,8 @@
    which the theorems of C08 (every feature inside a retained stretch is carried with its
    denotation, nothing else is) and C09 (generated source features tile the product, each over a
    stretch occurring verbatim in the plasmid it names) are stated. Statements only. *)
-From MV Require Import Base Record Regex Typing Assembly Pipeline Annot AnnotPipeline Py PyObj
-     SrcEquivRegex SrcEquivRecord SrcEquivTyping SrcEquivAssembly.
+From MV Require Import Base Record Regex Typing Assembly Pipeline Annot AnnotPipeline Py PyObj PyHeap SrcEquivCite SrcEquivAsmHeap
+     SrcEquivRegex SrcEquivRecord SrcEquivTyping SrcEquivAssembly PyHeap SrcEquivCite SrcEquivAsmHeap.
 From MV.Gen Require Import Src.
 Open Scope Z_scope.
 
@@ -51,3 +51,26 @@ Example C08_src_example :
   | Err _ => False
   end.
 Proof. vm_compute. repeat split. Qed.
+
+(* the same of the entry point: when the inputs' citations dereference and the model yields a
+   product, vector.assemble(module, *modules, **kwargs) AS REGENERATED (citations, metadata and
+   all) returns ref_record (annotated ...) of a record p — so: p's sequence, and p's ordered
+   feature table up to the renumbering of citations (Props/C10_src.v) — where p is the product of
+   the fragments of the consumed modules in chain order, then the vector's, the inputs being read
+   as they are once dereferenced *)
+Theorem C08_src_entry_point : forall vector m ms kw hd,
+  good_ent vector -> Forall good_ent (m :: ms) ->
+  map ent_id (m :: ms) = seq 0 (List.length (m :: ms)) -> ent_id vector = List.length (m :: ms) ->
+  deref_elems ((m :: ms) ++ [vector]) [] (heap_of (vector :: m :: ms)) = Ok hd ->
+  match assemble_raw (ent_cls vector) (ent_seq_w vector) (map raw_of (m :: ms)) with
+  | Product w used unused =>
+    exists p ws mgr usedE,
+      fst (run_assemble (S (S (List.length (m :: ms)))) vector (m :: ms) kw)
+      = Ok (ref_record (annotated mgr (pr_id (ent_record vector)) (map (fun x => pr_id (ent_record x)) (m :: ms)) p), ws)
+      /\ map ent_id usedE = used /\ incl usedE (refresh hd (m :: ms))
+      /\ pr_kind p = KCircularRecord
+      /\ same_sf (to_record p) (product (map frag_rec (usedE ++ [refresh hd vector])))
+  | _ => True
+  end.
+Proof. exact run_assemble_records. Qed.
+Print Assumptions C08_src_entry_point.
